@@ -58,7 +58,64 @@ def prepare():
                                capture_output=True, text=True)
             log += r.stdout + r.stderr
         open(stamp, "w").write(sha)
+    # cargo decides what to rebuild from file modification times.  A tree whose files were put back with their old
+    # times (rsync -a, cp -p, restoring a backup) after a changed version had been built here would be taken as
+    # up to date and the STALE build would be verified.  So rebuilding is keyed on content: when the sources of the
+    # /repo crates (or the harnesses) differ from what was last built in this workspace, their fingerprints are removed.
+    csha = source_content_sha()
+    cstamp = os.path.join(d, ".src-content-sha")
+    if not os.path.exists(cstamp) or open(cstamp).read() != csha:
+        n = drop_fingerprints(os.path.join(d, "target"))
+        log += "sources changed since the last build in this workspace: %d fingerprints removed\n" % n
+        open(cstamp, "w").write(csha)
     return d, log
+
+
+REPO_CRATES = ["breakpad-symbols", "minidump", "minidump-common", "minidump-processor", "minidump-unwind", "minidump-synth"]
+
+
+def source_content_sha():
+    h = hashlib.sha256()
+    roots = [os.path.join(REPO, c) for c in REPO_CRATES] + [os.path.join(ROOT, "kani", "src"), os.path.join(ROOT, "shims")]
+    for root in roots:
+        for dp, dns, fns in sorted(os.walk(root)):
+            dns[:] = sorted(x for x in dns if x not in ("target", ".git", "testdata", "tests"))
+            for fn in sorted(fns):
+                if fn.endswith(".rs") or fn == "Cargo.toml":
+                    fp = os.path.join(dp, fn)
+                    h.update(fp.encode())
+                    try:
+                        h.update(open(fp, "rb").read())
+                    except OSError:
+                        pass
+    return h.hexdigest()
+
+
+def drop_fingerprints(target):
+    """remove cargo's fingerprints of the /repo crates and of the harness crate (both target layouts)"""
+    names = set(REPO_CRATES) | {"vharness"}
+    n = 0
+    for dp, dns, fns in os.walk(target):
+        base = os.path.basename(dp)
+        if base == ".fingerprint":
+            for x in list(dns):
+                if x.rsplit("-", 1)[0] in names:
+                    shutil.rmtree(os.path.join(dp, x), ignore_errors=True)
+                    n += 1
+            dns[:] = []
+        elif base == "build":
+            for x in list(dns):
+                if x in names:
+                    for hsh in os.listdir(os.path.join(dp, x)):
+                        fpd = os.path.join(dp, x, hsh, "fingerprint")
+                        if os.path.isdir(fpd):
+                            shutil.rmtree(fpd, ignore_errors=True)
+                            n += 1
+            dns[:] = [x for x in dns if x not in names and not x.startswith(".")]
+            dns[:] = []
+        elif base in ("incremental", "deps", "examples", "out"):
+            dns[:] = []
+    return n
 
 
 def load_harnesses():
